@@ -16,6 +16,9 @@ decided.  Decided: the linearised one-step map that the code shape fixes.
      offset vanishes where the axis-1 coordinate is 0 and mentions the axis-1 coordinate (and
      delta0 for normalisation) only; the zero bin is -min/delta (grid lemma).
  R4  the sinusoidal model focuses in the same sense as the linear one at the synchronous point.
+ R6  the sinusoidal model linearised at the synchronous point has, per unit cos(phi_s), the slope angle = 2*pi/steps once the constructor
+     parameters are replaced by what main passes (V_eff, f_rev*dt, f_RF) and the axis scales by what main gives the phase space (natural
+     bunch length, dE): the two RF models agree to first order, which pins the position unit to the effective f_s and alpha.
 """
 import sympy as sp
 from .. import ast as A
@@ -154,6 +157,47 @@ def run(chk, prog):
     dsv = ds.subs(arg[0], cpos).subs(pos)
     chk.check(dsv.is_negative is True, "R4", A.loc(rf, {"line": sin["line"]}),
               "sinusoidal RF: slope at the synchronous point is negative like the linear model's -tan(a) (d/dx = %s)" % ds, "RF:sin-slope-sign")
+    # ---- R6: the sinusoidal model, linearised, is the linear model (given how main wires both) ------------------------------
+    # slope of the sinusoidal offset at the synchronous point, per unit cos(synchronous phase), expressed through the constructor's
+    # parameters, then through what main passes for them and for the axis scales: must equal angle = 2*pi/steps.  This ties the length
+    # unit of the position axis (natural bunch length), the energy unit, the step fraction of a turn and the RF frequency together.
+    slope0 = -ds.subs(arg[0], 1)
+    cts = [c for c in prog.fns("vfps::RFKickMap::RFKickMap") if "V_RF" in [p_["name"] for p_ in c["params"]]]
+    A.require(len(cts) == 1, "sinusoidal RFKickMap constructor not found")
+    chk.used(cts[0])
+    ini = {a_.base: a_.value for a_ in I.scan(cts[0], hooks=[hook]).accesses if a_.kind == "store" and a_.idx is None and a_.value is not None}
+
+    def subs_named(e, mapping):
+        return e.subs({t: mapping[str(t)] for t in e.free_symbols if str(t) in mapping})
+    e6 = slope0
+    for _ in range(3):
+        e6 = subs_named(e6, ini)
+    site6 = A.loc(rf, {"line": sin["line"]})
+    mains = []
+    for t in A.walk(mainf["body"]):
+        if t["k"] == "CXXNewExpr" and (t.get("alloc_type") or "").endswith("RFKickMap") and "DynamicRFKickMap" not in (t.get("alloc_type") or ""):
+            ce = A.strip(t["init"], casts=False)
+            if "V_RF" in ce.get("callee_params", []):
+                mains.append((t, ce))
+    A.require(len(mains) == 1, "main: construction of the static sinusoidal RFKickMap not found")
+    t6, ce6 = mains[0]
+    argv = {n_: sm._try(a_) for n_, a_ in zip(ce6.get("callee_params", []), ce6["args"])}
+    ps_new = [A.strip(t["init"], casts=False) for t in A.walk(mainf["body"]) if t["k"] == "CXXNewExpr" and (t.get("alloc_type") or "").endswith("PhaseSpace")]
+    ps_new = [c for c in ps_new if "qscale" in c.get("callee_params", [])]
+    A.require(len(ps_new) == 1, "main: direct construction of the phase space (qscale, pscale) not found")
+    pargs = {n_: sm._try(a_) for n_, a_ in zip(ps_new[0]["callee_params"], ps_new[0]["args"])}
+    need = [argv.get(k_) for k_ in ("revolutionpart", "V_RF", "f_RF")] + [pargs.get("qscale"), pargs.get("pscale"), v]
+    if all(z is not None for z in need):
+        e6m = subs_named(e6, {k_: argv[k_] for k_ in ("revolutionpart", "V_RF", "f_RF", "V0") if argv.get(k_) is not None})
+        e6m = subs_named(e6m, {"AX0_scale_Meter": pargs["qscale"], "AX1_scale_ElectronVolt": pargs["pscale"], "AX1_delta": d0})
+        left = {str(t) for t in e6m.free_symbols if str(t).startswith(("_", "AX"))} - {"AX0_delta"}
+        diff6 = sp.simplify(e6m - v)
+        chk.check(not left and diff6 == 0, "R6", site6,
+                  "sinusoidal RF, linearised at the synchronous point: -d(offset)/dx / cos(phi_s) = V_RF*revolutionpart*bl2phase*delta0/(delta1*scale_E), with the values main "
+                  "passes (V_eff, f_rev*dt, 2*pi*f_RF*bl/c, dE) equals angle = 2*pi/steps like the linear model (difference %s%s)" % (str(diff6)[:160], "; unresolved %s" % sorted(left) if left else ""),
+                  "RF:sin-slope-vs-angle")
+    else:
+        chk.fail("R6", site6, "the arguments main passes to the sinusoidal RF map / the phase space cannot be read as expressions", "RF:sin-slope-vs-angle:unreadable")
     # ---- R3 (continued): the kick machinery maps a zero offset onto the cell itself ---------------------------
     # the RF offset formula above vanishes at the zero bin, but the rotation centre is only there if KickMap turns offset 0 into
     # "take cell y from cell y": the centre that updateSM adds and the one apply subtracts are decided under C01/R2, re-evaluated here
@@ -164,6 +208,9 @@ def run(chk, prog):
     for i in r:
         chk.check(i["ok"], "R3", i["site"], "(C01/R2) %s" % i["what"].split("\n")[0][:220], "C01-R2:%s" % i.get("key", "ok"))
     chk.floor("R3-kick-centre", len(r), 6)
+    # ---- R5: every bunch is kicked and drifted (multi-bunch index maps decided under C08 R1/R2/R6; re-evaluated here) ----------
+    from .common import reeval
+    reeval(chk, prog, "C08", lambda i: i["rule"] in ("R1", "R2", "R6"), "R5", "R5-per-bunch-rows", 8)
     chk.notes.append("C03: linearised one-step kick-drift map read off the folded offset formulas: slopes, coupling product -a^2+O(a^4), sense, "
                      "single angle variable, equal cell sizes, centres at the zero bins. NOT decided: closure over a period, splitting-error size, "
                      "sinusoidal RF beyond the sign of its slope, DynamicRFKickMap (C19).")
